@@ -82,7 +82,7 @@ REGISTRY = {
     },
     "C06": {
         "rules": [
-            gating.rule_gate_modes, gating.rule_rewire,
+            gating.rule_gate_modes, gating.rule_rewire, gating.rule_dagger_total, gating.rule_where_order,
             P(optflow.rule_option_delivery, opts=("transpose", "dagger", "tags", "propagate_tags", "contract", "where"),
               modules=("quimb.tensor.gating", "quimb.tensor.tnag.core", "quimb.tensor.tn1d.core", "quimb.tensor.tn2d.core", "quimb.tensor.tensor_core"),
               want_names=lambda f: "gate" in f.name, rule="opt-deliver[gates]", floor=40,
@@ -221,7 +221,7 @@ REGISTRY = {
         "assumptions": COMMON_ASSUMPTIONS,
     },
     "C08": {
-        "rules": [record.rule_record, record.rule_absorb_keyed, record.rule_clients],
+        "rules": [record.rule_record, record.rule_absorb_keyed, record.rule_clients, record.rule_record_consumers, iso.rule_iso_claim, iso.rule_iso_invalidate],
         "explanation": (
             "static (typestate-style rules over the record-aware functions of tn1d/core.py and their circuit "
             "clients): decides that the canonical-form record is threaded to every record-aware callee, is only "
